@@ -837,6 +837,8 @@ def main(tier, replay=None):
         "and CPU can produce and run",
     ]
     # 0. every preprocessor conditional of the anchor files, from the current sources
+    import time as _t
+    _t0 = _t.time()
     chains = pp_chains()
     ppdir = write_ppgen(chains)
     built, l2, bad = build_harness_parts(quick, ppdir)
@@ -844,6 +846,7 @@ def main(tier, replay=None):
         chk.broke("implementation harness does not compile against /repo", l2)
         return chk.finish()
     himpl = built["native"]
+    chk.cov.setdefault("phase_seconds", {})["build_harness_all_configurations"] = round(_t.time() - _t0, 1); _t0 = _t.time()
     inconclusive = []
     for name, k in bad:
         inconclusive.append("configuration %s (part %d) did not compile" % (name, k))
@@ -917,8 +920,8 @@ def main(tier, replay=None):
     rc, out, err = run_impl(himpl, ["%s 4 neg 2\n" % r for r in BAL_RINGS], BAL_RINGS)
     negfix = {r: (rc == 0 and len(out) == len(BAL_RINGS) and out[i].strip() == "2") for i, r in enumerate(BAL_RINGS)}
     chk.cov["balanced_neg_normalises"] = negfix
+    chk.cov["phase_seconds"]["ppinfo_info"] = round(_t.time() - _t0, 1)
     # 1. proofs
-    import time as _t
     _t0 = _t.time()
     res = vf.coq_check_props(AREA)
     chk.proof_result(res, AREA)
